@@ -57,6 +57,9 @@ def specs(tier):
         out.append([dict(pf="swept", nx=3, ny=3, side=side, off=None), dict(pf="rect", nx=2, ny=2, side=side, off=[5.0, 0.0, 0.7], span=3.0, chord=0.8)])
         if tier == "thorough":
             out.append([dict(pf="twdi", nx=2, ny=4, side=side, off=None), dict(pf="swept", nx=3, ny=3, side=side, off=[5.0, 0.0, 0.7], span=3.0, chord=0.8)])
+    # production-size lattices (66 and 68 panels: above, and not a multiple of, any small power-of-two block size)
+    out.append([dict(pf="swept", nx=3, ny=21, side="left", off=None), dict(pf="rect", nx=3, ny=14, side="left", off=[5.0, 0.0, 0.7], span=6.0, chord=0.9)])
+    out.append([dict(pf="twdi", nx=5, ny=18, side="right", off=None)])
     return out
 
 
